@@ -1,1 +1,2 @@
 pub mod c06;
+pub mod c01;
